@@ -1,8 +1,8 @@
 SPECIFICATION Spec
 CONSTANTS MaxRank = 3
- Quota = 2
- Quota4R = 12
- Quota4 = 6
+ Quota = 14
+ Quota4R = 24
+ Quota4 = 12
 INVARIANT WellFormedOK
 INVARIANT ShapeOK
 INVARIANT SmallOK
